@@ -346,14 +346,20 @@ pub struct NOp {
     pub k: K,
     /// (nr_pow2range_cols, max_bit_len); None = default architecture, 8.
     pub cfg: Option<(u8, u8)>,
+    /// operand i is not a witness but the constant cell `assign_fixed(c)` (the chips cache
+    /// constant cells and take shortcuts when they recognise them)
+    pub fixed: Option<(usize, BigUint)>,
 }
 
 impl NOp {
     pub fn new(k: K) -> Self {
-        NOp { k, cfg: None }
+        NOp { k, cfg: None, fixed: None }
     }
     pub fn with_cfg(k: K, cols: u8, mbl: u8) -> Self {
-        NOp { k, cfg: Some((cols, mbl)) }
+        NOp { k, cfg: Some((cols, mbl)), fixed: None }
+    }
+    pub fn with_fixed(k: K, i: usize, c: BigUint) -> Self {
+        NOp { k, cfg: None, fixed: Some((i, c)) }
     }
 
     fn base_name(&self) -> String {
@@ -1187,9 +1193,13 @@ impl NOp {
 
 impl Op for NOp {
     fn name(&self) -> String {
-        match self.cfg {
+        let base = match &self.fixed {
             None => self.base_name(),
-            Some((c, m)) => format!("{}@cols={c},mbl={m}", self.base_name()),
+            Some((i, c)) => format!("{}[operand{i}=assign_fixed({})]", self.base_name(), bs(c)),
+        };
+        match self.cfg {
+            None => base,
+            Some((c, m)) => format!("{base}@cols={c},mbl={m}"),
         }
     }
     fn arch(&self) -> ZkStdLibArch {
@@ -1220,7 +1230,14 @@ impl Op for NOp {
             ins.extend(bytes.into_iter().map(V::Y));
         } else {
             for (i, ty) in tys.iter().enumerate() {
-                ins.push(assign_in(std, l, *ty, x.clone().map(|x| x[i].clone()))?);
+                match &self.fixed {
+                    Some((j, c)) if *j == i => ins.push(match ty {
+                        Ty::Nat => V::N(std.assign_fixed(l, big_to_f(c))?),
+                        Ty::Bit => V::B(std.assign_fixed(l, !c.is_zero())?),
+                        Ty::Byte => V::Y(std.assign_fixed(l, to_u8(c))?),
+                    }),
+                    _ => ins.push(assign_in(std, l, *ty, x.clone().map(|x| x[i].clone()))?),
+                }
             }
         }
         for v in &ins {
@@ -1233,6 +1250,12 @@ impl Op for NOp {
         Ok(())
     }
     fn reference(&self, x: &[BigUint]) -> Option<Vec<F>> {
+        if let Some((i, c)) = &self.fixed {
+            // the circuit exposes the constant whatever the witness says
+            if x.get(*i) != Some(c) {
+                return None;
+            }
+        }
         let y = self.model(x)?;
         let mut v: Vec<F> = if self.is_raw() { vec![] } else { x.iter().map(big_to_f).collect() };
         v.extend(y.iter().map(big_to_f));
@@ -1596,6 +1619,12 @@ impl NOp {
                     .collect()
             }
         };
+        let mut x = x;
+        if let Some((i, c)) = &self.fixed {
+            if *i < x.len() {
+                x[*i] = c.clone();
+            }
+        }
         (x, Meta { boundary: s.boundary })
     }
 
@@ -2081,6 +2110,37 @@ pub fn catalogue() -> Vec<Family> {
     }
     cf.extend([n(K::BitToNat), n(K::NatToBit), n(K::ByteToNat), n(K::NatToByte), n(K::ByteNatByte)]);
     fams.push(Family { name: "control+conversion", ops: cf });
+
+    // constant cells as operands (assign_fixed instead of a witness): the chips recognise cached
+    // constant cells and shortcut
+    let mut fx = vec![];
+    let pm1c = &p() - big(1);
+    for pos in 0..2usize {
+        for c in [big(0), big(1), pm1c.clone()] {
+            for k in [K::Add, K::Sub, K::Mul(None), K::Mul(Some(big(1))), K::Mul(Some(big(3))), K::Mul(Some(pm1c.clone())), K::Div, K::IsEq(Nat), K::AssertEq(Nat)] {
+                if matches!(k, K::Div) && pos == 1 && c.is_zero() {
+                    continue;
+                }
+                fx.push(NOp::with_fixed(k, pos, c.clone()));
+            }
+        }
+        for c in [big(0), big(1)] {
+            for k in [K::And(2), K::Or(2), K::Xor(2), K::IsEq(Bit)] {
+                fx.push(NOp::with_fixed(k, pos, c.clone()));
+            }
+        }
+    }
+    for c in [big(0), big(1)] {
+        fx.push(NOp::with_fixed(K::Select(Nat), 0, c.clone()));
+        fx.push(NOp::with_fixed(K::CondSwap(Nat), 0, c.clone()));
+        fx.push(NOp::with_fixed(K::Not, 0, c.clone()));
+    }
+    for c in [big(0), big(1), pm1c.clone()] {
+        for k in [K::Neg, K::Inv0, K::IsZero, K::Square, K::AddConst(big(5)), K::MulConst(big(3))] {
+            fx.push(NOp::with_fixed(k, 0, c.clone()));
+        }
+    }
+    fams.push(Family { name: "constant-operands", ops: fx });
 
     // bound bookkeeping across two operations on the same cell: thresholds around the cached bound
     let mut ch = vec![];
